@@ -99,10 +99,10 @@ func c02Run() {
 	if aud == nil {
 		return
 	}
-	nCons := simrt.DrawRange(1, 3)
+	nCons := simrt.DrawRange(1, 3+simrt.Scale()-1)
 	progs := make([][]txnOp, nCons)
 	for i := range progs {
-		n := simrt.DrawRange(2, 10)
+		n := simrt.DrawRange(2, 10*simrt.Scale())
 		for j := 0; j < n; j++ {
 			op := txnOp{pause: drawPause(), cancelAt: simrt.DrawRange(0, 6), stopAt: -1, panicAt: -1, putIn: -1, goexitAt: -1}
 			switch x := simrt.Draw(16); {
